@@ -5,8 +5,49 @@
   Helper lemmas: Proofs.C16.  Property statements only in this file.
 -/
 import GqlVerif.Proofs.C16
+import GqlVerif.Proofs.C16Resp
 namespace GqlVerif.Props.C16
 open GqlVerif.CacheControl
+
+/-! ### the engine side: what is collected, written and found again (model: Cache.RespCache, tied to
+    `responseCacheCollect` / `responseCacheLookup` / `responseCacheFlush` by the regenerated guard skeletons in Ties.C16 and
+    validated against the engine by the cache-transparency histories of the harness) -/
+
+/-- **stored_entity_is_the_answer_at_its_own_position** (∀ batches, ∀ answers): every item handed to the cache pairs an
+    object of the `_entities` answer with the key of the SAME position of the batch — an entity is never written under
+    another representation's key, wherever nulls sit in the answer. -/
+theorem stored_entity_is_the_answer_at_its_own_position (keys : List String) (vals : List (Option String))
+    (items : List (String × String)) (h : RespCache.collect keys vals = some items) :
+    ∀ kv ∈ items, ∃ i : Nat, keys[i]? = some kv.1 ∧ vals[i]? = some (some kv.2) :=
+  RespCache.collect_positional keys vals items h
+
+/-- **cached_batch_is_answered_with_what_was_stored** (∀ stores, ∀ batches of distinct keys): a batch whose answer holds
+    an object at every position is, once collected and written, found again as a whole, and the synthesized `_entities`
+    array is exactly that answer — the cached response equals the response the subgraph gave. -/
+theorem cached_batch_is_answered_with_what_was_stored (s : RespCache.Store) (keys vs : List String) (hn : keys.Nodup)
+    (hne : keys ≠ []) (hl : vs.length = keys.length) (hv : ∀ v ∈ vs, v.isEmpty = false) :
+    ∃ items, RespCache.collect keys (vs.map some) = some items ∧
+      RespCache.lookup (RespCache.setMany s items) keys = some vs :=
+  RespCache.roundtrip s keys vs hn hne hl hv
+
+/-- **hit_is_positional** (∀ stores, ∀ batches): whenever a lookup hits, position `i` of the synthesized array is the
+    cache's own non-empty entry for key `i`. -/
+theorem hit_is_positional (s : RespCache.Store) (keys vs : List String) (h : RespCache.lookup s keys = some vs) :
+    vs.length = keys.length ∧
+      ∀ (i : Nat) k, keys[i]? = some k → ∃ v, vs[i]? = some v ∧ s.get k = some v ∧ v.isEmpty = false :=
+  RespCache.hit_is_positional s keys vs h
+
+/-- **partial_hit_is_a_miss** (∀ stores, ∀ batches): when only part of a batch is cached the lookup misses as a whole and
+    the batch is fetched again — a partially cached batch is never answered from the cache. -/
+theorem partial_hit_is_a_miss (s : RespCache.Store) (keys : List String) (k : String) (hk : k ∈ keys)
+    (hs : s.get k = none) : RespCache.lookup s keys = none :=
+  RespCache.partial_is_a_miss s keys k hk hs
+
+/-- non-vacuity: the answer `[e1, null, e3]` for keys `[k1, k2, k3]` stores e1 under k1 and e3 under k3 (not under k2),
+    a later batch `[k1, k2]` misses, `[k1, k3]` hits with `[e1, e3]` -/
+example : RespCache.collect ["k1", "k2", "k3"] [some "{1}", none, some "{3}"] = some [("k1", "{1}"), ("k3", "{3}")] := by decide
+example : RespCache.lookup (RespCache.setMany [] [("k1", "{1}"), ("k3", "{3}")]) ["k1", "k2"] = none := by decide
+example : RespCache.lookup (RespCache.setMany [] [("k1", "{1}"), ("k3", "{3}")]) ["k1", "k3"] = some ["{1}", "{3}"] := by decide
 
 /-- **ttl_safe** (∀ header value lists, ∀ defaults).  `caching.TTL` says "store for t" only if the
     header parses, is explicitly `public`, has none of `no-store` / `no-cache` / `private`, and `t` is
